@@ -190,7 +190,7 @@ def run_case(col, kind, lrows, rrows, lstyle, rstyle, extra, how, suf, case):
         exp_index_names = [rname]
     # ---------------- observed: the pandas result, and the result with the same left frame held by Dask (2 partitions)
     results = [("", res)]
-    if how != "right" and nl >= 2 and lstyle in ("default", "named", "range_step") and (nl + nr + len(kind)) % 2 == 0:
+    if how != "right" and nl >= 2 and lstyle in ("default", "named", "range_step") and (nl * 3 + nr + len(kind)) % 4 == 0:
         import dask.dataframe as dd
         col.count("evaluations")
         try:
